@@ -168,7 +168,10 @@ def lifted_write_probe(chk):
   views = {'plain': Writer, 'map_variables(params, read-only)': nn.map_variables(Writer, 'params', ident),
            'map_variables(unused, read-only)': nn.map_variables(Writer, 'unused', ident),
            'map_variables(state, read-write)': nn.map_variables(Writer, 'state', ident, ident, mutable=True),
-           'remat': nn.remat(Writer), 'jit': nn.jit(Writer), 'plain, same object assigned back': functools.partial(Writer, same=True)}
+           'remat': nn.remat(Writer), 'jit': nn.jit(Writer), 'plain, same object assigned back': functools.partial(Writer, same=True),
+           # (both collections named in variable_axes: the lifted scope's mutability is the outer filter minus nothing)
+           'vmap': nn.vmap(Writer, in_axes=0, out_axes=0, variable_axes={'params': 0, 'state': 0}, split_rngs={'params': True}),
+           'scan-like vmap over broadcast params': nn.vmap(Writer, in_axes=0, out_axes=0, variable_axes={'params': None, 'state': 0}, split_rngs={'params': False})}
 
   class Outer(nn.Module):
     view: str
@@ -177,9 +180,9 @@ def lifted_write_probe(chk):
     def __call__(self, x):
       return views[self.view](name='inner')(x)
   x = jnp.ones((2,))
-  variables = Outer('plain').init(jax.random.key(0), x)
   from flax.core.scope import DenyList
   for view in views:
+    variables = Outer(view if 'vmap' in view else 'plain').init(jax.random.key(0), x)      # (mapped views stack their variables)
     for mname, mutable, allowed in (('False', False, False), ("['params']", ['params'], False), ("'other'", 'other', False),
                                     ("DenyList('state')", DenyList('state'), False), ("['state']", ['state'], True), ('True', True, True)):
       key = f'C01:write-behind-lifted-view:{view}:mutable={mname}'
@@ -196,7 +199,7 @@ def lifted_write_probe(chk):
       if raised == allowed:
         chk.violation(key, ('the write was rejected although the collection is mutable' if raised else
                             'a write to a collection that `mutable` does not select did not raise (it took effect inside the call and was dropped)'), {})
-      elif allowed and float(out[1]['state']['inner']['n']) != (0.0 if 'same object' in view else 1.0):
+      elif allowed and float(jnp.ravel(out[1]['state']['inner']['n'])[0]) != (0.0 if 'same object' in view else 1.0):
         chk.violation(key, f'returned state {out[1]}', {})
       if _snap(variables) != before:
         chk.violation(key, 'the variables passed in were modified', {})
